@@ -37,6 +37,29 @@ Lemma consts_shape_ok :
   clean_expires_trunc = second /\ clean_expires_add = second.
 Proof. repeat split; reflexivity. Qed.
 
+(** who cleans (translator item emitC18Callers): inside the package nothing calls CleanStorage (no timer path:
+    a cleaning starts only when the application calls it, e.g. Caddy's cleanStorageRegularly), and CleanStorage
+    is the only user of its two helpers -- so they run under the storage_clean lock taken by CleanStorage,
+    as modelled; the storage is mutated at two Delete sites in each helper and one Store site in
+    CleanStorage, the lock is taken and released once, through acquireLock / releaseLock *)
+Definition spec_clean_storage_name : str := [67; 108; 101; 97; 110; 83; 116; 111; 114; 97; 103; 101]%N. (* "CleanStorage" *)
+Lemma consts_callers_ok :
+  clean_users_CleanStorage = [] /\
+  clean_users_deleteOldOCSPStaples = [spec_clean_storage_name] /\
+  clean_users_deleteExpiredCerts = [spec_clean_storage_name] /\
+  clean_sites_Delete = [0; 2; 2]%nat /\ clean_sites_Store = [1; 0; 0]%nat /\
+  clean_sites_acquireLock = [1; 0; 0]%nat /\ clean_sites_releaseLock = [1; 0; 0]%nat /\
+  clean_sites_Lock = [0; 0; 0]%nat /\ clean_sites_Unlock = [0; 0; 0]%nat.
+Proof. repeat split; reflexivity. Qed.
+
+(** FileStorage.Delete is os.RemoveAll of the key's path (the key and everything below: [remove]; in part when it
+    fails half-way: [removep]) and a missing key is not an error (translator item emitC18FsDelete) *)
+Lemma consts_fs_delete_ok :
+  clean_fs_delete_fn = [111; 115; 46; 82; 101; 109; 111; 118; 101; 65; 108; 108]%N /\   (* "os.RemoveAll" *)
+  clean_fs_delete_arg = [115; 46; 70; 105; 108; 101; 110; 97; 109; 101; 40; 107; 101; 121; 41]%N /\   (* "s.Filename(key)" *)
+  clean_fs_delete_missing_ok = true.
+Proof. repeat split; reflexivity. Qed.
+
 (** * Strings *)
 Lemma seqb_eq a b : seqb a b = true <-> a = b.
 Proof.
@@ -142,6 +165,16 @@ Qed.
 Lemma file_remove x s k : file (remove x s) k = if covers x k then None else file s k.
 Proof. unfold file. rewrite lookup_remove. destruct (covers x k); reflexivity. Qed.
 
+Lemma lookup_removep x keep s k :
+  lookup (removep x keep s) k = if covers x k && negb (memk k keep) then None else lookup s k.
+Proof.
+  unfold removep. induction s as [|[k1 n] r IH]; cbn; [destruct (covers x k && negb (memk k keep)); reflexivity|].
+  destruct (negb (covers x k1) || memk k1 keep) eqn:C1; cbn.
+  - rewrite IH. destruct (seqb k1 k) eqn:E; [|reflexivity].
+    apply seqb_eq in E; subst. destruct (covers x k); destruct (memk k keep); cbn in *; try reflexivity; discriminate.
+  - rewrite IH. destruct (seqb k1 k) eqn:E; [|reflexivity].
+    apply seqb_eq in E; subst. destruct (covers x k); destruct (memk k keep); cbn in *; try reflexivity; discriminate.
+Qed.
 Lemma lookup_put x n s k : lookup (put x n s) k = if seqb x k then Some n else lookup s k.
 Proof.
   unfold put; cbn. destruct (seqb x k) eqn:E; [reflexivity|].
@@ -239,9 +272,10 @@ Proof.
 Qed.
 
 Lemma do_delete_spec e k s b s1 : do_delete e k s = (b, s1) ->
-  sto s1 = sto s \/ sto s1 = remove k (sto s).
+  sto s1 = sto s \/ sto s1 = remove k (sto s) \/ exists keep, sto s1 = removep k keep (sto s).
 Proof.
-  unfold do_delete. destruct (faulty e s); [|destruct (efaulty e s)]; intros H; injection H; intros <- _; cbn; auto.
+  unfold do_delete. destruct (faulty e s); [|destruct (pfaulty e s); [|destruct (efaulty e s)]];
+    intros H; injection H; intros <- _; cbn; eauto.
 Qed.
 
 Lemma do_store_spec e k n s b s1 : do_store e k n s = (b, s1) ->
@@ -302,25 +336,40 @@ Section Safety.
               do_certs o = true -> gone_under cur k -> kstate cur k.
   Definition Inv (cur : store) : Prop := forall k, kstate cur k.
 
-  Lemma Inv_remove x cur : Inv cur ->
+  Lemma gone_under_removep x keep cur k : gone_under cur k -> gone_under (removep x keep cur) k.
+  Proof. intros G k' U. rewrite lookup_removep. destruct (covers x k' && negb (memk k' keep)); [reflexivity | exact (G k' U)]. Qed.
+
+  (** a Delete(x) that removes all or part of what x covers *)
+  Lemma Inv_removep x keep cur : Inv cur ->
     (forall k, covers x k = true ->
        lookup cur k = None \/ jt k \/
-       (lookup s0 k = Some Dir /\ site_folderb k = true /\ do_certs o = true /\ gone_under (remove x cur) k)) ->
-    Inv (remove x cur).
+       (lookup s0 k = Some Dir /\ site_folderb k = true /\ do_certs o = true /\ gone_under cur k)) ->
+    Inv (removep x keep cur).
   Proof.
-    intros HI H k. pose proof (lookup_remove x cur k) as L. destruct (covers x k) eqn:C.
-    - destruct (H k C) as [N|[J|(D & Sf & Ho & G)]].
+    intros HI H k. pose proof (lookup_removep x keep cur k) as L.
+    destruct (covers x k && negb (memk k keep)) eqn:C.
+    - apply andb_true_iff in C. destruct C as [C _]. destruct (H k C) as [N|[J|(D & Sf & Ho & G)]].
       + destruct (HI k) as [E|N' J|N' D Sf Ho G].
         * apply KSame. congruence.
         * apply KJust; assumption.
-        * apply KFolder; try assumption. apply gone_under_remove; exact G.
+        * apply KFolder; try assumption. apply gone_under_removep; exact G.
       + apply KJust; assumption.
-      + apply KFolder; assumption.
+      + apply KFolder; try assumption. apply gone_under_removep; exact G.
     - destruct (HI k) as [E|N' J|N' D Sf Ho G].
       + apply KSame. congruence.
       + apply KJust; [congruence | assumption].
-      + apply KFolder; try assumption; [congruence | apply gone_under_remove; exact G].
+      + apply KFolder; try assumption; [congruence | apply gone_under_removep; exact G].
   Qed.
+  Lemma removep_nil x s : removep x [] s = remove x s.
+  Proof.
+    unfold removep, remove. apply filter_ext. intros a. cbn. apply orb_false_r.
+  Qed.
+  Lemma Inv_remove x cur : Inv cur ->
+    (forall k, covers x k = true ->
+       lookup cur k = None \/ jt k \/
+       (lookup s0 k = Some Dir /\ site_folderb k = true /\ do_certs o = true /\ gone_under cur k)) ->
+    Inv (remove x cur).
+  Proof. intros HI H. rewrite <- removep_nil. apply Inv_removep; assumption. Qed.
 
   Lemma Inv_some cur k v c : Inv cur -> file cur k = Some (v, c) -> file s0 k = Some (v, c).
   Proof.
@@ -373,11 +422,12 @@ Section Safety.
       (forall k', covers k k' = true ->
          lookup (sto s) k' = None \/ jt k' \/
          (lookup s0 k' = Some Dir /\ site_folderb k' = true /\ do_certs o = true /\
-          gone_under (remove k (sto s)) k')) ->
+          gone_under (sto s) k')) ->
       Inv (sto s1).
     Proof.
-      intros D HI H. destruct (do_delete_spec _ _ _ _ _ D) as [->| ->]; [exact HI|].
-      apply Inv_remove; assumption.
+      intros D HI H. destruct (do_delete_spec _ _ _ _ _ D) as [->| [-> | [keep ->]]]; [exact HI| |].
+      - apply Inv_remove; assumption.
+      - apply Inv_removep; assumption.
     Qed.
 
     Lemma staples_loop_inv ks : do_ocsp o = true -> Forall (child spec_ocsp) ks ->
@@ -486,7 +536,7 @@ Section Safety.
             assert (Hd0 : lookup s0 sk = Some Dir).
             { destruct (HI2 sk) as [E'|N _|N _ _ _ _]; rewrite <- E3 in *; congruence. }
             split; [exact Hd0|]. split; [apply site_folder_shape; exists ik; auto|]. split; [exact Ho|].
-            intros k'' U. rewrite lookup_remove. unfold covers. rewrite U, orb_true_r. reflexivity.
+            intros k'' U. exact (comps_below_nil _ _ Hnil _ U).
           + left. exact (comps_below_nil _ _ Hnil _ Ck). }
       destruct ok; [apply IH; assumption | exact HI5].
     Qed.
@@ -714,7 +764,7 @@ Proof. unfold do_list. destruct (faulty e s); apply ext_one; reflexivity. Qed.
 Lemma do_stat_ext e k s : ext s (snd (do_stat e k s)).
 Proof. unfold do_stat. destruct (faulty e s); apply ext_one; reflexivity. Qed.
 Lemma do_delete_ext e k s : ext s (snd (do_delete e k s)).
-Proof. unfold do_delete. destruct (faulty e s); [|destruct (efaulty e s)]; apply ext_one; reflexivity. Qed.
+Proof. unfold do_delete. destruct (faulty e s); [|destruct (pfaulty e s); [|destruct (efaulty e s)]]; apply ext_one; reflexivity. Qed.
 
 Ltac ext_step :=
   match goal with
